@@ -7,10 +7,14 @@
 (* schedule replayed on the real Timer<T> thread against the virtual clock.                         *)
 EXTENDS Timer, Json
 
-CONSTANTS MaxEv, Delays, Steps, MaxNow, MaxRuns, MaxClr, Dev, Export
-VARIABLES now, pending, nsched, quota, runs, ranAt, epoch, final, nclr, last, cmds
+(* A callback takes time: the clock moves by the event's `slow` while it runs.  The ideal thread reads  *)
+(* the clock immediately before each decision (Fire judges and re-arms with the instant the callback  *)
+(* begins); deviation "stale_now" keeps the instant it last read (tnow) for every event it drains and  *)
+(* reads again only when nothing is due under that view (Sleep).                                       *)
+CONSTANTS MaxEv, Delays, Steps, MaxNow, MaxRuns, MaxClr, Dev, Export, Slows
+VARIABLES now, pending, nsched, quota, runs, ranAt, epoch, final, nclr, last, cmds, tnow, slow
 
-vars == <<now, pending, nsched, quota, runs, ranAt, epoch, final, nclr, last, cmds>>
+vars == <<now, pending, nsched, quota, runs, ranAt, epoch, final, nclr, last, cmds, tnow, slow>>
 NoFire == [id |-> 0]
 \* the command history is kept only by the export configuration (it would make every history a state)
 \* bookkeeping of events that left the queue is dropped (keeps the state space small)
@@ -18,40 +22,50 @@ Keep(f, p) == [j \in DOMAIN f \cap DOMAIN p |-> f[j]]
 Rec(c) == IF Export THEN Append(cmds, c) ELSE cmds
 
 Init == /\ now = 0 /\ pending = NoEvents /\ nsched = 0 /\ quota = NoEvents /\ runs = NoEvents
-        /\ ranAt = NoEvents /\ epoch = NoEvents /\ final = {} /\ nclr = 0 /\ last = NoFire /\ cmds = <<>>
+        /\ ranAt = NoEvents /\ epoch = NoEvents /\ final = {} /\ nclr = 0 /\ last = NoFire /\ cmds = <<>> /\ tnow = 0 /\ slow = NoEvents
 
-Schedule(d, rep, q) ==
+Schedule(d, rep, q, sl) ==
     LET id == nsched + 1 IN
     /\ nsched < MaxEv /\ (rep \/ q = 1)
     /\ pending' = SchedOf(pending, now, id, d, rep)
     /\ nsched' = id
     /\ quota' = (id :> q) @@ quota /\ runs' = (id :> 0) @@ runs /\ ranAt' = (id :> -1) @@ ranAt
     /\ epoch' = (id :> nclr) @@ epoch
-    /\ cmds' = Rec([c |-> "sched", id |-> id, delay |-> d, rep |-> rep, q |-> q])
+    /\ slow' = (id :> sl) @@ slow
+    /\ cmds' = Rec([c |-> "sched", id |-> id, delay |-> d, rep |-> rep, q |-> q, slow |-> sl])
     /\ last' = NoFire
-    /\ UNCHANGED <<now, final, nclr>>
+    /\ UNCHANGED <<now, final, nclr, tnow>>
 
 Advance(d) ==
     /\ now + d <= MaxNow
     /\ now' = now + d
     /\ cmds' = Rec([c |-> "adv", d |-> d])
     /\ last' = NoFire
-    /\ UNCHANGED <<pending, nsched, quota, runs, ranAt, epoch, final, nclr>>
+    /\ UNCHANGED <<pending, nsched, quota, runs, ranAt, epoch, final, nclr, tnow, slow>>
+
+\* the instant the thread's decision is based on
+View0 == IF "stale_now" \in Dev THEN tnow ELSE now
+Sleep == /\ "stale_now" \in Dev /\ tnow # now /\ Fireable(pending, tnow, Dev) = {}
+         /\ tnow' = now /\ last' = NoFire
+         /\ UNCHANGED <<now, pending, nsched, quota, runs, ranAt, epoch, final, nclr, cmds, slow>>
 
 Fire(i) ==
     LET r == runs[i] + 1 < quota[i]           \* what the callback returns
         others == Ids(pending) \ {i}
     IN
-    /\ i \in Fireable(pending, now, Dev)
+    /\ i \in Fireable(pending, View0, Dev)
+    /\ now + slow[i] <= MaxNow
+    /\ now' = now + slow[i] /\ tnow' = View0
     /\ last' = [id |-> i, at |-> now, due |-> pending[i].due, iv |-> pending[i].iv, prev |-> ranAt[i],
                 minOther |-> IF others = {} THEN -1 ELSE MinDue(Without(pending, i)),
                 epoch |-> epoch[i], nclr |-> nclr, afterFinal |-> i \in final, ret |-> r]
-    /\ pending' = AfterFire(pending, now, i, r, Dev)
+    /\ pending' = AfterFire(pending, View0, i, r, Dev)
+    /\ slow' = Keep(slow, pending')
     /\ runs' = Keep([runs EXCEPT ![i] = @ + 1], pending')
     /\ ranAt' = Keep([ranAt EXCEPT ![i] = now], pending')
     /\ quota' = Keep(quota, pending') /\ epoch' = Keep(epoch, pending')
     /\ final' = IF pending[i].rep /\ r THEN final ELSE final \cup {i}
-    /\ UNCHANGED <<now, nsched, nclr, cmds>>
+    /\ UNCHANGED <<nsched, nclr, cmds>>
 
 Clear ==
     /\ nclr < MaxClr /\ Ids(pending) # {}
@@ -60,9 +74,11 @@ Clear ==
     /\ cmds' = Rec([c |-> "clear"])
     /\ last' = NoFire
     /\ quota' = Keep(quota, pending') /\ runs' = Keep(runs, pending') /\ ranAt' = Keep(ranAt, pending') /\ epoch' = Keep(epoch, pending')
-    /\ UNCHANGED <<now, nsched, final>>
+    /\ slow' = Keep(slow, pending')
+    /\ UNCHANGED <<now, nsched, final, tnow>>
 
-Next == \/ \E d \in Delays, rep \in BOOLEAN, q \in 1..MaxRuns : Schedule(d, rep, q)
+Next == \/ \E d \in Delays, rep \in BOOLEAN, q \in 1..MaxRuns, sl \in Slows : Schedule(d, rep, q, sl)
+        \/ Sleep
         \/ \E d \in Steps : Advance(d)
         \/ \E i \in Ids(pending) : Fire(i)
         \/ Clear
@@ -81,5 +97,5 @@ Reach_LateFire == ~(Fired /\ last.at > last.due /\ last.nclr > 0)
 Edge == PrintT("LEAF " \o ToJson(cmds))
 \* -simulate export: print the command history when the behaviour cannot be extended by a command
 Full == (now + 1 > MaxNow /\ nsched = MaxEv) => PrintT("LEAF " \o ToJson(cmds))
-View == <<now, pending, nsched, quota, runs, ranAt, epoch, final, nclr, last>>
+View == <<now, pending, nsched, quota, runs, ranAt, epoch, final, nclr, last, tnow, slow>>
 =============================================================================
